@@ -148,6 +148,31 @@ CHECKS = {
   note='trusted: the down-converter in harness/checks/c09.py (inverse of the documented upgrade steps), stub compiler, '
        'TLC; mopack is not exercised',
   design='5/C09'),
+ 'C13': dict(
+  technique='TLC enumerates the invocation-context space (Determ_Gen.tla) and generates projects (Script_Gen.tla); '
+            'the real bfg9000 configures each project once per context; TLC validates the digests against the '
+            'determinism contract (Determ_Trace.tla)',
+  text='Every project (generated script + a trailer with a dual-use library passed to default/install/pkg_config, '
+       'find_files with extra, global options) is configured under every context of the TLC-enumerated product hash '
+       'seed x invoking directory x relative/absolute build directory x unrelated environment variables; TLC checks '
+       'byte-identical Makefile/build.ninja/compile_commands.json/.pc files and set-equal auxiliary files. The TLA+ '
+       'content is small by nature; the assurance rests on the real executions.',
+  note='trusted: sha1 digests, the projection of auxiliary files to entry sets, stub compilers; pid and time vary '
+       'naturally and are not controlled',
+  design='5/C13'),
+ 'C18': dict(
+  technique='TLC-generated scripts (Script_Gen.tla); the set of files a script names is computed by TLC from '
+            'Script.tla (Dist_Trace.tla); real configure, real make dist (doppel), tar listing, build-file scan, '
+            'unpack and re-configure',
+  text='For every generated project TLC checks that the real archive contains every file the abstract script names '
+       '(sources, files named in custom commands, copied files) plus the fixed trailer\'s files (listed header, '
+       'header_directory(include=) matches, find_files results incl. extra / filter_by_platform / cache=False, '
+       'extra_dist, submodule script, options.bfg), that dist=False files are absent, that nothing outside the '
+       'source tree is included, that every source-dir path the Makefile mentions is a member, and that the unpacked '
+       'archive configures to the same Makefile.',
+  note='trusted: tar listing of the doppel archive, regex scan of $(srcdir)/ paths, Script.tla; only #included '
+       'headers are not required',
+  design='5/C18'),
 }
 
 NOT_YET = {}
